@@ -30,7 +30,7 @@ Section MainThm.
     cli_decide doc_tables a = Run ps io ->
     let g := view_of a in
     exists ds, str_of g ["d"; "delimiter"] "," = Some ds /\
-    cli_main V parse print lib doc_tables LoopGetline a content =
+    cli_main V parse print lib doc_tables LoopGetline CheckEveryRow a content =
     match read_data_fixed V parse (delim_char ds) content with
     | RWrong _ => Fail 1%Z
     | RMat file =>
@@ -62,14 +62,16 @@ Section MainThm.
     rewrite (io_char_first _ _ _ Hr), (io_char_first _ _ _ Hw), (io_char_first _ _ _ Hp).
     rewrite (io_bool_some _ _ _ rf_tin0), (io_bool_some _ _ _ rf_tout0),
             (io_bool_some _ _ _ rf_pre0), (io_bool_some _ _ _ rf_proj0).
-    cbn [read_with]. fold g.
+    cbn [read_with lines_with to_matrix_with].
+    change (to_matrix V (parse_rows V parse (delim_char ds) (lines_fixed content)))
+      with (read_data_fixed V parse (delim_char ds) content). fold g.
     destruct (read_data_fixed V parse (delim_char ds) content); reflexivity.
   Qed.
 
   (* rows of unequal length: exit status 1 whatever the options *)
   Theorem cli_main_unequal_rows : forall a content,
     (forall d, exists i, read_data_fixed V parse d content = RWrong i) ->
-    exists c, cli_main V parse print lib doc_tables LoopGetline a content = Fail c /\ c <> 0%Z.
+    exists c, cli_main V parse print lib doc_tables LoopGetline CheckEveryRow a content = Fail c /\ c <> 0%Z.
   Proof.
     intros a content Hbad.
     destruct (cli_decide doc_tables a) as [c|ps io|] eqn:E.
@@ -85,8 +87,8 @@ Section MainThm.
 
   (* main() never returns 0 without having written the embedding the library returned *)
   Theorem cli_main_cases : forall a content,
-    (exists c, cli_main V parse print lib doc_tables LoopGetline a content = Fail c /\ c <> 0%Z) \/
-    (exists out, cli_main V parse print lib doc_tables LoopGetline a content = Done 0%Z out).
+    (exists c, cli_main V parse print lib doc_tables LoopGetline CheckEveryRow a content = Fail c /\ c <> 0%Z) \/
+    (exists out, cli_main V parse print lib doc_tables LoopGetline CheckEveryRow a content = Done 0%Z out).
   Proof.
     intros a content.
     destruct (cli_decide doc_tables a) as [c|ps io|] eqn:E.
